@@ -161,19 +161,19 @@ prop('C16', [T.rule_total_bytag, X.rule_nonevalue, T.rule_pair_ber, Z.rule_schem
      'None/placeholder/raw octets reach a result yield.  Leaf equality and re-encode identity are not decided.',
      {'A1.total': 80, 'A13.value': 20, 'A1.proto': 60, 'A1.enctype': 60, 'A8.eooid': 8, 'C16.dynorder': 3, 'A6.specparam': 8})
 
-prop('C17', [T.rule_total_native, A.rule_c17_contra, A.rule_a6_record_arms, A.rule_c04_default, Z.rule_native_record, M.rule_a9_dynamic, R.rule_omissions, R.rule_as_binary, R3.rule_native_scalar_value, R4.rule_segment_handover, R4.rule_items_positional, R4.rule_native_list_cleared, R4.rule_native_of_decoders, R4.rule_set_members_keep_spec],
+prop('C17', [T.rule_total_native, A.rule_c17_contra, A.rule_a6_record_arms, A.rule_c04_default, Z.rule_native_record, M.rule_a9_dynamic, R.rule_omissions, R.rule_as_binary, R3.rule_native_scalar_value, R4.rule_segment_handover, R4.rule_items_positional, R4.rule_native_list_cleared, R4.rule_native_of_decoders, R4.rule_set_members_keep_spec, R4.rule_oid_text_arcs],
      'Native tables total over all types; in the python-value arms the OPTIONAL-absent skip is satisfiable and precedes '
      'the raising lookup; value arm and python arm take the same OPTIONAL/DEFAULT/open-type actions.  Native round trip '
      'of values is not decided.'
      '  Also: Octets (or any BIT STRING value) with a tagged spec get re-tagged segment specs like a value object; items() / values() of the record base yield one element per position (the native encoder pairs by position); the native decoder turns [] into an empty value.',
-     {'A1.total': 55, 'A4.contra': 4, 'A6.arms': 2, 'A6.omit': 8, 'W.binstr': 2, 'W.segspec': 3, 'C17.items': 2, 'C17.clear': 1, 'A1.nativeof': 4, 'C13.setspec': 1})
+     {'A1.total': 55, 'A4.contra': 4, 'A6.arms': 2, 'A6.omit': 8, 'W.binstr': 2, 'W.segspec': 3, 'C17.items': 2, 'C17.clear': 1, 'A1.nativeof': 4, 'C13.setspec': 1, 'W.oidtext': 1})
 
-prop('C18', [A.rule_a8_dec, X.rule_nonevalue, T.rule_pair_ber, Z.rule_any_capture_yields, Z.rule_option_scope, A.rule_a6_open, R.rule_opentype_map_ref, R3.rule_opentype_truthy, R3.rule_open_skips, R3.rule_open_types_flag, R3.rule_method_identity, E.rule_option_latch],
+prop('C18', [A.rule_a8_dec, X.rule_nonevalue, T.rule_pair_ber, Z.rule_any_capture_yields, Z.rule_option_scope, A.rule_a6_open, R.rule_opentype_map_ref, R3.rule_opentype_truthy, R3.rule_open_skips, R3.rule_open_types_flag, R3.rule_method_identity, E.rule_option_latch, R4.rule_any_catch_all],
      'Raw capture of an indefinite-length TLV is complete (header re-read <=> end-of-octets appended); raw octets are '
      'handed back only to a collecting caller; ANY resolves to the ANY codec in every by-type table.  Equality of the '
      'resolved value is not decided.'
      '  Also: The ANY decoder\'s collector identity test compares the same function object; the open-types flag does not depend on OPTIONAL / DEFAULT.',
-     {'A8.dec': 1, 'A13.raw': 1, 'A6.mapref': 1, 'A6.truthy': 3, 'A6.openskip': 6})
+     {'A8.dec': 1, 'A13.raw': 1, 'A6.mapref': 1, 'A6.truthy': 3, 'A6.openskip': 6, 'A6.anymap': 1})
 
 prop('C19', [S.rule_field, S.rule_pep479, S.rule_companion, S.rule_commit, S.rule_bounds, S.rule_schema_ops, A.rule_c04_clone, R.rule_position_order, R4.rule_copy_is_value, R4.rule_dynamic_order, R4.rule_schema_plugs],
      'Container state machines: methods invoked on the component store exist on its shape; no StopIteration raised in '
